@@ -78,7 +78,7 @@ def replay(pid, path):
     mod = importlib.import_module(r['module'])
     fn = getattr(mod, r['function'])
     try:
-        B = H.concrete_run(fn, r['cfg'], r['env'], {})
+        B = H.concrete_run(fn, r['cfg'], r['env'], r.get('opts', {}))
         f = H._concrete_label_fails(B, r['label'])
     except H.Skip:
         print('replay point violates an assumption of the case')
@@ -197,6 +197,7 @@ def finish(pid, a, mod, jobs, results, seed, t0, extra=None):
             s['cfg'] = _jsonable(cfg)
             samples.append(s)
 
+    jobs_opts = {(j[0], repr(j[3])): j[4].get('facade', {}) for j in jobs}
     os.makedirs(os.path.join(ROOT, 'replays'), exist_ok=True)
     for k, (entry, hits) in sorted(known_hits.items()):
         print('KNOWN-FINDING: property=%s %s [%d obligation(s), e.g. %s %s]'
@@ -209,6 +210,7 @@ def finish(pid, a, mod, jobs, results, seed, t0, extra=None):
                            function=fname, cfg=_jsonable(cfg),
                            env=v['env'], label=v['label'],
                            detail=v['detail'], outcome=v['outcome'],
+                           opts=dict(facade=_jsonable(jobs_opts.get((case, repr(cfg)), {}))),
                            path=v['path']), f, indent=1)
         if i < 25:
             print('violation: case=%s cfg=%s obligation=%s: %s (%s)' % (
